@@ -1,10 +1,10 @@
 SPECIFICATION Spec
 CONSTANTS CancelOnExit = TRUE
- FiredTimerCleared = FALSE
+ FiredTimerCleared = TRUE
  RestoreTimerFirst = TRUE
- StartMode = "fresh"
- MaxNow = 3
- MaxLevel = 9
+ StartMode = "restore"
+ MaxNow = 2
+ MaxLevel = 6
  MinStop = 0
  Tables = "some"
 INVARIANT AtMostOnePending
